@@ -248,6 +248,16 @@ class Livetime(
 
         (t_start_idx, t_end_idx) = self._get_onoff_interval_indices(
             (t_start, t_end))
+
+        # Determine the number of on-time intervals, which overlap with the
+        # given time range. If there is none, e.g. the time range lies within a
+        # detector off-time period, or before or after all on-time intervals,
+        # an empty interval array is returned.
+        N_ontime_intervals = (
+            (t_end_idx + t_end_idx % 2) - (t_start_idx - t_start_idx % 2)) // 2
+        if N_ontime_intervals <= 0:
+            return np.empty((0, 2), dtype=np.float64)
+
         if t_start_idx % 2 == 0:
             # t_start is during off-time. Use the next on-time lower edge as
             # first on-time edge.
